@@ -383,8 +383,9 @@ pub fn item(i: &syn::Item) -> String {
                 .iter()
                 .map(|v| {
                     format!(
-                        "{{\"name\":{},\"fields\":{},\"discr\":{}}}",
+                        "{{\"name\":{},\"attrs\":{},\"fields\":{},\"discr\":{}}}",
                         esc(&v.ident.to_string()),
+                        attrs(&v.attrs),
                         fields(&v.fields),
                         opt(v.discriminant.as_ref().map(|(_, e)| expr(e)))
                     )
